@@ -4,6 +4,7 @@ import EpModel.Props.C15
 import EpModel.Lemmas.SpecShift
 import EpModel.Lemmas.SpecShiftEntry
 import EpModel.Props.C06Headers
+import EpModel.Lemmas.ReadVsSlice
 /-
   C06 — equivalent entry points give equivalent answers.
 
@@ -21,7 +22,12 @@ import EpModel.Props.C06Headers
       IpSlice/LaxIpSlice, which look at the IHL first) is excluded by hypothesis and characterised in
       C03 (`ShortV4`) - both answers reject and both are true of the bytes;
     * starting at the IPv4 / IPv6 ether type equals starting at IP (same packet with the link set);
-    * header readers vs `from_slice` for the IPv4 and IPv6 headers (re-exported from C15's bit-level model);
+    * header readers vs `from_slice` for the IPv4 and IPv6 headers (re-exported from C15's bit-level model), and -
+      section "every header reader against the `from_slice` of the same header type" - for ALL 17 header types
+      (Ethernet II, VLAN, Linux SLL, MACsec, ARP, IPv4, IPv6, IPv6 raw extension / fragment, IP authentication,
+      UDP, TCP, ICMPv4, ICMPv6, Ipv4Extensions, Ipv6Extensions, IpHeaders) over every byte string: read = from_slice
+      on success (same header, exactly the header's bytes gathered and consumed), the same content rejections,
+      length error = end of data; the rules that need the end of the slice are explicit exceptions;
     * starting at an Ethernet II header equals starting at its ether type on the bytes behind it, offsets
       moved by 14 (last section).  The wire-format walk is proved placement independent
       (Lemmas/SpecShift.lean: `step_shift` for every branch of `Spec.step`, `chain_shift`, `walkN_shift`;
@@ -39,8 +45,7 @@ import EpModel.Props.C06Headers
       or the limiting field); that part stays with the correspondence check, which runs both doors.
   Not proved (checked by correspondence + oracle only): Ethernet II start vs ether-type start for the
   struct families `PacketHeaders` / `LaxPacketHeaders` (C03 / C05 refine the slice families `SlicedPacket` /
-  `LaxSlicedPacket` only; the oracle compares all four families after shifting by 14); the remaining
-  header readers (C16 models their I/O).
+  `LaxSlicedPacket` only; the oracle compares all four families after shifting by 14).
 -/
 namespace EpModel.Props.C06
 open EpModel EpModel.Dec EpModel.Lemmas.Refine EpModel.Lemmas.Copies
@@ -92,7 +97,8 @@ theorem from_ipv6_ether_type_equals_from_ip (g : Mem) (n : Nat) (h6 : g 0 / 16 =
 /-- hypotheses of the above are satisfiable and the conclusion is not about errors only -/
 example : (fun i => if i = 0 then 0x45 else 0 : Mem) 0 / 16 = 4 := by decide
 
-/-! ### readers vs slices (bit-level model of C15) -/
+/-! ### readers vs slices (bit-level model of C15; the byte-level theorems for every header type are in the
+  section "every header reader against the `from_slice` of the same header type" below) -/
 
 theorem ipv4_read_equals_from_slice (b : Bytes) (h : EpModel.BitFields.Ip4) (r : Bytes)
     (hd : EpModel.BitFields.Ip4.fromSlice b = .ok (h, r)) : EpModel.BitFields.Ip4.read b = some (.ok h) :=
@@ -320,5 +326,1240 @@ example : slicedFromEtherType (memOf (arpFrame.drop 14)) (g16 (memOf arpFrame) 1
   rfl
 
 end EthernetVsEtherType
+
+/-! ### every header reader against the `from_slice` of the same header type
+
+  The read programs of Model/Io.lean (`Reads.*`, validated against every `read` function by the `io.read.*`
+  correspondence of C16) against the slice decoders of Model/Codec/*.lean (`*.fromSlice`, validated by the
+  `enc.*` correspondence of C08), for EVERY byte string `b` and every position in a stream: the reader
+  `readerAt pre b` has handed out `pre`, stands at the start of `b`, has no injected fault and runs dry
+  only at the end of `b` (`pre = []`: a fresh reader over `b`).  Vocabulary (Lemmas/ReadVsSlice.lean):
+
+    `ReadsOk p pre b n a`       `p.run (readerAt pre b) = (readerAdv pre b n, .ok a)`: success, `n` bytes consumed
+    `ReadsEof p pre b`          … `= (readerAdv pre b b.length, .error (.io .unexpectedEof))`: ran dry, all consumed
+    `ReadsContent p pre b n s`  … `= (readerAdv pre b n, .error (.other s))`: content error with text `s`
+    `OkRow p dec pre b h rest`  `ReadsOk p pre b n (b.take n)` ∧ `b = b.take n ++ rest` ∧ `dec (b.take n) = .ok (h, [])`
+                                with `n = b.length - rest.length`: `read` gathers and consumes exactly the bytes
+                                in front of `rest`, and decoding them (`decode ∘ gather`, what the driver of C16
+                                prints) gives the same header
+    `linkText`, `ipv4ErrText`, `ipv6ErrText`, `authErrText`   canonical text of a content error of the slice
+                                decoder (the text carries the offending value), `none` for length errors
+
+  Per header type: `*_read_vs_from_slice` is the complete table (for each outcome of `from_slice`, what
+  `read` does on the same bytes; both are functions, so the table fixes both directions), and read off it
+    (1) `*_read_of_slice`: `from_slice b = ok (h, rest)` ⟹ `read` succeeds, gathers `b.take n`, consumes `n`,
+        `n = b.length - rest.length`, and the gathered bytes decode to `h`;
+    (2) `*_slice_of_read`: `read` returns `g` ⟹ `b = g ++ rest`, `g.length` bytes consumed, `from_slice g` and
+        `from_slice b` give the same header - with the end-of-slice rules as explicit exceptions (ICMPv4
+        timestamp exact size, ICMPv6 `u32::MAX` limit; the single IPv4 / IPv6 header decoders have no
+        total_len / payload_length rule, those belong to `IpHeaders`);
+    (3)+(4) `*_rejections_coincide`: content errors coincide (same error, same offending value), a length
+        error of `from_slice` is the reader's end-of-data error and never a success.  One honest wrinkle, stated
+        in the tables: the IPv4 / IPv6 readers look at the version nibble after ONE byte while the slice
+        decoders check the minimum length first, so on a slice shorter than the fixed header whose first
+        byte has the wrong version `from_slice` reports the length and `read` the version. -/
+
+section ReadersVsSlices
+open EpModel.Io EpModel.Codec EpModel.CodecNet EpModel.Lemmas.ReadVsSlice
+
+/-! #### Ethernet II (`Ethernet2Header::read` / `from_slice`) -/
+
+/-- the complete comparison: for each outcome of `from_slice` what `read` does on the same bytes -/
+theorem eth2_read_vs_from_slice (pre b : Bytes) :
+    match Eth2.fromSlice b with
+    | .ok (h, rest) => OkRow Reads.eth2 Eth2.fromSlice pre b h rest
+    | .error e => e = lenErrSlice 14 b.length "Ethernet2Header" ∧ b.length < 14 ∧ ReadsEof Reads.eth2 pre b :=
+  eth2_table pre b
+
+/-- (1) `from_slice` succeeds ⟹ `read` succeeds, gathers and consumes exactly the header's bytes -/
+theorem eth2_read_of_slice (pre b : Bytes) (h) (rest : Bytes) (hd : Eth2.fromSlice b = .ok (h, rest)) :
+    ReadsOk Reads.eth2 pre b (b.length - rest.length) (b.take (b.length - rest.length)) ∧
+      b = b.take (b.length - rest.length) ++ rest ∧
+      Eth2.fromSlice (b.take (b.length - rest.length)) = .ok (h, []) := by
+  have t := eth2_table pre b; rw [hd] at t; exact t
+
+/-- (2) `read` succeeds with `g` ⟹ `b = g ++ rest`, `g.length` bytes consumed, same header from `g` and `b` -/
+theorem eth2_slice_of_read (pre b g : Bytes) (hr : (Reads.eth2.run (readerAt pre b)).2 = .ok g) :
+    ∃ h rest, Eth2.fromSlice b = .ok (h, rest) ∧ b = g ++ rest ∧
+      (Reads.eth2.run (readerAt pre b)).1 = readerAdv pre b g.length ∧ Eth2.fromSlice g = .ok (h, []) := by
+  have t := eth2_table pre b
+  cases hd : Eth2.fromSlice b with
+  | ok x => rw [hd] at t; exact ⟨x.1, x.2, rfl, t.converse hr⟩
+  | error e => rw [hd] at t; rw [t.2.2.snd] at hr; cases hr
+
+/-- (3)+(4) one rejects iff the other does; there is no content error on either side: `from_slice`
+    reports a length error, `read` the end of the data (everything consumed) -/
+theorem eth2_rejections_coincide (pre b : Bytes) :
+    ((∃ e, Eth2.fromSlice b = .error e) ↔ ∃ e, (Reads.eth2.run (readerAt pre b)).2 = .error e) ∧
+    (∀ e, Eth2.fromSlice b = .error e →
+      e = lenErrSlice 14 b.length "Ethernet2Header" ∧ b.length < 14 ∧ ReadsEof Reads.eth2 pre b) := by
+  have t := eth2_table pre b
+  cases hd : Eth2.fromSlice b with
+  | ok x =>
+    rw [hd] at t
+    exact ⟨⟨fun ⟨e, he⟩ => (by cases he), fun ⟨e, he⟩ => (by rw [t.1.snd] at he; cases he)⟩,
+      fun e he => (by cases he)⟩
+  | error e =>
+    rw [hd] at t
+    exact ⟨⟨fun _ => ⟨_, t.2.2.snd⟩, fun _ => ⟨_, rfl⟩⟩, fun e' he => by cases he; exact t⟩
+
+/-! #### single VLAN header (`SingleVlanHeader::read` / `from_slice`) -/
+
+/-- the complete comparison: for each outcome of `from_slice` what `read` does on the same bytes -/
+theorem vlan_read_vs_from_slice (pre b : Bytes) :
+    match Vlan.fromSlice b with
+    | .ok (h, rest) => OkRow Reads.vlan Vlan.fromSlice pre b h rest
+    | .error e => e = lenErrSlice 4 b.length "VlanHeader" ∧ b.length < 4 ∧ ReadsEof Reads.vlan pre b :=
+  vlan_table pre b
+
+/-- (1) `from_slice` succeeds ⟹ `read` succeeds, gathers and consumes exactly the header's bytes -/
+theorem vlan_read_of_slice (pre b : Bytes) (h) (rest : Bytes) (hd : Vlan.fromSlice b = .ok (h, rest)) :
+    ReadsOk Reads.vlan pre b (b.length - rest.length) (b.take (b.length - rest.length)) ∧
+      b = b.take (b.length - rest.length) ++ rest ∧
+      Vlan.fromSlice (b.take (b.length - rest.length)) = .ok (h, []) := by
+  have t := vlan_table pre b; rw [hd] at t; exact t
+
+/-- (2) `read` succeeds with `g` ⟹ `b = g ++ rest`, `g.length` bytes consumed, same header from `g` and `b` -/
+theorem vlan_slice_of_read (pre b g : Bytes) (hr : (Reads.vlan.run (readerAt pre b)).2 = .ok g) :
+    ∃ h rest, Vlan.fromSlice b = .ok (h, rest) ∧ b = g ++ rest ∧
+      (Reads.vlan.run (readerAt pre b)).1 = readerAdv pre b g.length ∧ Vlan.fromSlice g = .ok (h, []) := by
+  have t := vlan_table pre b
+  cases hd : Vlan.fromSlice b with
+  | ok x => rw [hd] at t; exact ⟨x.1, x.2, rfl, t.converse hr⟩
+  | error e => rw [hd] at t; rw [t.2.2.snd] at hr; cases hr
+
+/-- (3)+(4) one rejects iff the other does; there is no content error on either side: `from_slice`
+    reports a length error, `read` the end of the data (everything consumed) -/
+theorem vlan_rejections_coincide (pre b : Bytes) :
+    ((∃ e, Vlan.fromSlice b = .error e) ↔ ∃ e, (Reads.vlan.run (readerAt pre b)).2 = .error e) ∧
+    (∀ e, Vlan.fromSlice b = .error e →
+      e = lenErrSlice 4 b.length "VlanHeader" ∧ b.length < 4 ∧ ReadsEof Reads.vlan pre b) := by
+  have t := vlan_table pre b
+  cases hd : Vlan.fromSlice b with
+  | ok x =>
+    rw [hd] at t
+    exact ⟨⟨fun ⟨e, he⟩ => (by cases he), fun ⟨e, he⟩ => (by rw [t.1.snd] at he; cases he)⟩,
+      fun e he => (by cases he)⟩
+  | error e =>
+    rw [hd] at t
+    exact ⟨⟨fun _ => ⟨_, t.2.2.snd⟩, fun _ => ⟨_, rfl⟩⟩, fun e' he => by cases he; exact t⟩
+
+/-! #### ARP packet (`ArpPacket::read` / `from_slice`); `arpLen b` = 8 + 2·hw size + 2·proto size -/
+
+/-- the complete comparison: for each outcome of `from_slice` what `read` does on the same bytes -/
+theorem arp_read_vs_from_slice (pre b : Bytes) :
+    match Arp.fromSlice b with
+    | .ok (h, rest) => OkRow Reads.arp Arp.fromSlice pre b h rest
+    | .error e => (∃ le, e = .len le) ∧ (b.length < 8 ∨ b.length < arpLen b) ∧ ReadsEof Reads.arp pre b :=
+  arp_table pre b
+
+/-- (1) `from_slice` succeeds ⟹ `read` succeeds, gathers and consumes exactly the header's bytes -/
+theorem arp_read_of_slice (pre b : Bytes) (h) (rest : Bytes) (hd : Arp.fromSlice b = .ok (h, rest)) :
+    ReadsOk Reads.arp pre b (b.length - rest.length) (b.take (b.length - rest.length)) ∧
+      b = b.take (b.length - rest.length) ++ rest ∧
+      Arp.fromSlice (b.take (b.length - rest.length)) = .ok (h, []) := by
+  have t := arp_table pre b; rw [hd] at t; exact t
+
+/-- (2) `read` succeeds with `g` ⟹ `b = g ++ rest`, `g.length` bytes consumed, same header from `g` and `b` -/
+theorem arp_slice_of_read (pre b g : Bytes) (hr : (Reads.arp.run (readerAt pre b)).2 = .ok g) :
+    ∃ h rest, Arp.fromSlice b = .ok (h, rest) ∧ b = g ++ rest ∧
+      (Reads.arp.run (readerAt pre b)).1 = readerAdv pre b g.length ∧ Arp.fromSlice g = .ok (h, []) := by
+  have t := arp_table pre b
+  cases hd : Arp.fromSlice b with
+  | ok x => rw [hd] at t; exact ⟨x.1, x.2, rfl, t.converse hr⟩
+  | error e => rw [hd] at t; rw [t.2.2.snd] at hr; cases hr
+
+/-- (3)+(4) one rejects iff the other does; there is no content error on either side: `from_slice`
+    reports a length error, `read` the end of the data (everything consumed) -/
+theorem arp_rejections_coincide (pre b : Bytes) :
+    ((∃ e, Arp.fromSlice b = .error e) ↔ ∃ e, (Reads.arp.run (readerAt pre b)).2 = .error e) ∧
+    (∀ e, Arp.fromSlice b = .error e →
+      (∃ le, e = .len le) ∧ (b.length < 8 ∨ b.length < arpLen b) ∧ ReadsEof Reads.arp pre b) := by
+  have t := arp_table pre b
+  cases hd : Arp.fromSlice b with
+  | ok x =>
+    rw [hd] at t
+    exact ⟨⟨fun ⟨e, he⟩ => (by cases he), fun ⟨e, he⟩ => (by rw [t.1.snd] at he; cases he)⟩,
+      fun e he => (by cases he)⟩
+  | error e =>
+    rw [hd] at t
+    exact ⟨⟨fun _ => ⟨_, t.2.2.snd⟩, fun _ => ⟨_, rfl⟩⟩, fun e' he => by cases he; exact t⟩
+
+/-! #### IPv6 raw extension header (`Ipv6RawExtHeader::read` / `from_slice`); `rawextLen b` = (b[1]+1)·8 -/
+
+/-- the complete comparison: for each outcome of `from_slice` what `read` does on the same bytes -/
+theorem ipv6_raw_ext_read_vs_from_slice (pre b : Bytes) :
+    match Ipv6RawExtHeader.fromSlice b with
+    | .ok (h, rest) => OkRow Reads.rawext Ipv6RawExtHeader.fromSlice pre b h rest
+    | .error e => (∃ le, e = .len le) ∧ (b.length < 8 ∨ b.length < rawextLen b) ∧ ReadsEof Reads.rawext pre b :=
+  rawext_table pre b
+
+/-- (1) `from_slice` succeeds ⟹ `read` succeeds, gathers and consumes exactly the header's bytes -/
+theorem ipv6_raw_ext_read_of_slice (pre b : Bytes) (h) (rest : Bytes) (hd : Ipv6RawExtHeader.fromSlice b = .ok (h, rest)) :
+    ReadsOk Reads.rawext pre b (b.length - rest.length) (b.take (b.length - rest.length)) ∧
+      b = b.take (b.length - rest.length) ++ rest ∧
+      Ipv6RawExtHeader.fromSlice (b.take (b.length - rest.length)) = .ok (h, []) := by
+  have t := rawext_table pre b; rw [hd] at t; exact t
+
+/-- (2) `read` succeeds with `g` ⟹ `b = g ++ rest`, `g.length` bytes consumed, same header from `g` and `b` -/
+theorem ipv6_raw_ext_slice_of_read (pre b g : Bytes) (hr : (Reads.rawext.run (readerAt pre b)).2 = .ok g) :
+    ∃ h rest, Ipv6RawExtHeader.fromSlice b = .ok (h, rest) ∧ b = g ++ rest ∧
+      (Reads.rawext.run (readerAt pre b)).1 = readerAdv pre b g.length ∧ Ipv6RawExtHeader.fromSlice g = .ok (h, []) := by
+  have t := rawext_table pre b
+  cases hd : Ipv6RawExtHeader.fromSlice b with
+  | ok x => rw [hd] at t; exact ⟨x.1, x.2, rfl, t.converse hr⟩
+  | error e => rw [hd] at t; rw [t.2.2.snd] at hr; cases hr
+
+/-- (3)+(4) one rejects iff the other does; there is no content error on either side: `from_slice`
+    reports a length error, `read` the end of the data (everything consumed) -/
+theorem ipv6_raw_ext_rejections_coincide (pre b : Bytes) :
+    ((∃ e, Ipv6RawExtHeader.fromSlice b = .error e) ↔ ∃ e, (Reads.rawext.run (readerAt pre b)).2 = .error e) ∧
+    (∀ e, Ipv6RawExtHeader.fromSlice b = .error e →
+      (∃ le, e = .len le) ∧ (b.length < 8 ∨ b.length < rawextLen b) ∧ ReadsEof Reads.rawext pre b) := by
+  have t := rawext_table pre b
+  cases hd : Ipv6RawExtHeader.fromSlice b with
+  | ok x =>
+    rw [hd] at t
+    exact ⟨⟨fun ⟨e, he⟩ => (by cases he), fun ⟨e, he⟩ => (by rw [t.1.snd] at he; cases he)⟩,
+      fun e he => (by cases he)⟩
+  | error e =>
+    rw [hd] at t
+    exact ⟨⟨fun _ => ⟨_, t.2.2.snd⟩, fun _ => ⟨_, rfl⟩⟩, fun e' he => by cases he; exact t⟩
+
+/-! #### IPv6 fragment header (`Ipv6FragmentHeader::read` / `from_slice`) -/
+
+/-- the complete comparison: for each outcome of `from_slice` what `read` does on the same bytes -/
+theorem ipv6_frag_read_vs_from_slice (pre b : Bytes) :
+    match Ipv6FragmentHeader.fromSlice b with
+    | .ok (h, rest) => OkRow Reads.ipv6frag Ipv6FragmentHeader.fromSlice pre b h rest
+    | .error e => e = sliceLenErr 8 b.length .ipv6FragHeader ∧ b.length < 8 ∧ ReadsEof Reads.ipv6frag pre b :=
+  ipv6frag_table pre b
+
+/-- (1) `from_slice` succeeds ⟹ `read` succeeds, gathers and consumes exactly the header's bytes -/
+theorem ipv6_frag_read_of_slice (pre b : Bytes) (h) (rest : Bytes) (hd : Ipv6FragmentHeader.fromSlice b = .ok (h, rest)) :
+    ReadsOk Reads.ipv6frag pre b (b.length - rest.length) (b.take (b.length - rest.length)) ∧
+      b = b.take (b.length - rest.length) ++ rest ∧
+      Ipv6FragmentHeader.fromSlice (b.take (b.length - rest.length)) = .ok (h, []) := by
+  have t := ipv6frag_table pre b; rw [hd] at t; exact t
+
+/-- (2) `read` succeeds with `g` ⟹ `b = g ++ rest`, `g.length` bytes consumed, same header from `g` and `b` -/
+theorem ipv6_frag_slice_of_read (pre b g : Bytes) (hr : (Reads.ipv6frag.run (readerAt pre b)).2 = .ok g) :
+    ∃ h rest, Ipv6FragmentHeader.fromSlice b = .ok (h, rest) ∧ b = g ++ rest ∧
+      (Reads.ipv6frag.run (readerAt pre b)).1 = readerAdv pre b g.length ∧ Ipv6FragmentHeader.fromSlice g = .ok (h, []) := by
+  have t := ipv6frag_table pre b
+  cases hd : Ipv6FragmentHeader.fromSlice b with
+  | ok x => rw [hd] at t; exact ⟨x.1, x.2, rfl, t.converse hr⟩
+  | error e => rw [hd] at t; rw [t.2.2.snd] at hr; cases hr
+
+/-- (3)+(4) one rejects iff the other does; there is no content error on either side: `from_slice`
+    reports a length error, `read` the end of the data (everything consumed) -/
+theorem ipv6_frag_rejections_coincide (pre b : Bytes) :
+    ((∃ e, Ipv6FragmentHeader.fromSlice b = .error e) ↔ ∃ e, (Reads.ipv6frag.run (readerAt pre b)).2 = .error e) ∧
+    (∀ e, Ipv6FragmentHeader.fromSlice b = .error e →
+      e = sliceLenErr 8 b.length .ipv6FragHeader ∧ b.length < 8 ∧ ReadsEof Reads.ipv6frag pre b) := by
+  have t := ipv6frag_table pre b
+  cases hd : Ipv6FragmentHeader.fromSlice b with
+  | ok x =>
+    rw [hd] at t
+    exact ⟨⟨fun ⟨e, he⟩ => (by cases he), fun ⟨e, he⟩ => (by rw [t.1.snd] at he; cases he)⟩,
+      fun e he => (by cases he)⟩
+  | error e =>
+    rw [hd] at t
+    exact ⟨⟨fun _ => ⟨_, t.2.2.snd⟩, fun _ => ⟨_, rfl⟩⟩, fun e' he => by cases he; exact t⟩
+
+/-! #### UDP header (`UdpHeader::read` / `from_slice`) -/
+
+/-- the complete comparison: for each outcome of `from_slice` what `read` does on the same bytes -/
+theorem udp_read_vs_from_slice (pre b : Bytes) :
+    match Udp.fromSlice b with
+    | .ok (h, rest) => OkRow Reads.udp Udp.fromSlice pre b h rest
+    | .error e => e = lenErrSlice 8 b.length "UdpHeader" ∧ b.length < 8 ∧ ReadsEof Reads.udp pre b :=
+  udp_table pre b
+
+/-- (1) `from_slice` succeeds ⟹ `read` succeeds, gathers and consumes exactly the header's bytes -/
+theorem udp_read_of_slice (pre b : Bytes) (h) (rest : Bytes) (hd : Udp.fromSlice b = .ok (h, rest)) :
+    ReadsOk Reads.udp pre b (b.length - rest.length) (b.take (b.length - rest.length)) ∧
+      b = b.take (b.length - rest.length) ++ rest ∧
+      Udp.fromSlice (b.take (b.length - rest.length)) = .ok (h, []) := by
+  have t := udp_table pre b; rw [hd] at t; exact t
+
+/-- (2) `read` succeeds with `g` ⟹ `b = g ++ rest`, `g.length` bytes consumed, same header from `g` and `b` -/
+theorem udp_slice_of_read (pre b g : Bytes) (hr : (Reads.udp.run (readerAt pre b)).2 = .ok g) :
+    ∃ h rest, Udp.fromSlice b = .ok (h, rest) ∧ b = g ++ rest ∧
+      (Reads.udp.run (readerAt pre b)).1 = readerAdv pre b g.length ∧ Udp.fromSlice g = .ok (h, []) := by
+  have t := udp_table pre b
+  cases hd : Udp.fromSlice b with
+  | ok x => rw [hd] at t; exact ⟨x.1, x.2, rfl, t.converse hr⟩
+  | error e => rw [hd] at t; rw [t.2.2.snd] at hr; cases hr
+
+/-- (3)+(4) one rejects iff the other does; there is no content error on either side: `from_slice`
+    reports a length error, `read` the end of the data (everything consumed) -/
+theorem udp_rejections_coincide (pre b : Bytes) :
+    ((∃ e, Udp.fromSlice b = .error e) ↔ ∃ e, (Reads.udp.run (readerAt pre b)).2 = .error e) ∧
+    (∀ e, Udp.fromSlice b = .error e →
+      e = lenErrSlice 8 b.length "UdpHeader" ∧ b.length < 8 ∧ ReadsEof Reads.udp pre b) := by
+  have t := udp_table pre b
+  cases hd : Udp.fromSlice b with
+  | ok x =>
+    rw [hd] at t
+    exact ⟨⟨fun ⟨e, he⟩ => (by cases he), fun ⟨e, he⟩ => (by rw [t.1.snd] at he; cases he)⟩,
+      fun e he => (by cases he)⟩
+  | error e =>
+    rw [hd] at t
+    exact ⟨⟨fun _ => ⟨_, t.2.2.snd⟩, fun _ => ⟨_, rfl⟩⟩, fun e' he => by cases he; exact t⟩
+
+/-! #### Linux SLL (`LinuxSllHeader::read` / `from_slice`): packet type and ARP hardware id checks -/
+
+/-- the complete comparison: for each outcome of `from_slice` what `read` does on the same bytes -/
+theorem sll_read_vs_from_slice (pre b : Bytes) :
+    match Sll.fromSlice b with
+    | .ok (h, rest) => OkRow Reads.sll Sll.fromSlice pre b h rest
+    | .error e =>
+      (b.length < 16 ∧ e = lenErrSlice 16 b.length "LinuxSllHeader" ∧ ReadsEof Reads.sll pre b) ∨
+      (16 ≤ b.length ∧ (∃ w, e = .content w) ∧ ReadsContent Reads.sll pre b 16 e.render) :=
+  sll_table pre b
+
+/-- (1) -/
+theorem sll_read_of_slice (pre b : Bytes) (h) (rest : Bytes) (hd : Sll.fromSlice b = .ok (h, rest)) :
+    ReadsOk Reads.sll pre b (b.length - rest.length) (b.take (b.length - rest.length)) ∧
+      b = b.take (b.length - rest.length) ++ rest ∧
+      Sll.fromSlice (b.take (b.length - rest.length)) = .ok (h, []) := by
+  have t := sll_table pre b; rw [hd] at t; exact t
+
+/-- (2) -/
+theorem sll_slice_of_read (pre b g : Bytes) (hr : (Reads.sll.run (readerAt pre b)).2 = .ok g) :
+    ∃ h rest, Sll.fromSlice b = .ok (h, rest) ∧ b = g ++ rest ∧
+      (Reads.sll.run (readerAt pre b)).1 = readerAdv pre b g.length ∧ Sll.fromSlice g = .ok (h, []) := by
+  have t := sll_table pre b
+  cases hd : Sll.fromSlice b with
+  | ok x => rw [hd] at t; exact ⟨x.1, x.2, rfl, t.converse hr⟩
+  | error e =>
+    rw [hd] at t
+    rcases t with ⟨_, _, t⟩ | ⟨_, _, t⟩ <;> rw [t.snd] at hr <;> cases hr
+
+/-- (3) the content rejections coincide (same error, `linkText` = its canonical text, which carries the
+    offending packet type / hardware id), (4) a length error of `from_slice` is the reader's end of data -/
+theorem sll_rejections_coincide (pre b : Bytes) :
+    (∀ s, (Reads.sll.run (readerAt pre b)).2 = .error (.other s) ↔
+      ∃ e, Sll.fromSlice b = .error e ∧ linkText e = some s) ∧
+    ((Reads.sll.run (readerAt pre b)).2 = .error (.io .unexpectedEof) ↔
+      ∃ le, Sll.fromSlice b = .error (.len le)) := by
+  have t := sll_table pre b
+  cases hd : Sll.fromSlice b with
+  | ok x =>
+    rw [hd] at t
+    refine ⟨fun s => ⟨fun hr => ?_, fun ⟨e, he, _⟩ => (by cases he)⟩, ⟨fun hr => ?_, fun ⟨e, he⟩ => (by cases he)⟩⟩
+    all_goals rw [t.1.snd] at hr; cases hr
+  | error e =>
+    rw [hd] at t
+    rcases t with ⟨_, rfl, t⟩ | ⟨_, ⟨w, rfl⟩, t⟩
+    · refine ⟨fun s => ⟨fun hr => ?_, fun ⟨e, he, ht⟩ => ?_⟩, ⟨fun _ => ⟨_, rfl⟩, fun _ => t.snd⟩⟩
+      · rw [t.snd] at hr; cases hr
+      · cases he; cases ht
+    · refine ⟨fun s => ⟨fun hr => ?_, fun ⟨e, he, ht⟩ => ?_⟩, ⟨fun hr => ?_, fun ⟨le, he⟩ => (by cases he)⟩⟩
+      · rw [t.snd] at hr; cases hr; exact ⟨_, rfl, rfl⟩
+      · cases he; cases ht; exact t.snd
+      · rw [t.snd] at hr; cases hr
+
+/-! #### MACsec SecTag (`MacsecHeader::read` / `from_slice`): version and short length checks; `macsecReq b` = 6 (+2 unmodified) (+8 SCI) -/
+
+/-- the complete comparison: for each outcome of `from_slice` what `read` does on the same bytes -/
+theorem macsec_read_vs_from_slice (pre b : Bytes) :
+    match Macsec.fromSlice b with
+    | .ok (h, rest) => OkRow Reads.macsec Macsec.fromSlice pre b h rest
+    | .error e =>
+      ((∃ le, e = .len le) ∧ ReadsEof Reads.macsec pre b) ∨
+      (6 ≤ b.length ∧ (∃ w, e = .content w) ∧ ReadsContent Reads.macsec pre b 6 e.render) :=
+  macsec_table pre b
+
+/-- (1) -/
+theorem macsec_read_of_slice (pre b : Bytes) (h) (rest : Bytes) (hd : Macsec.fromSlice b = .ok (h, rest)) :
+    ReadsOk Reads.macsec pre b (b.length - rest.length) (b.take (b.length - rest.length)) ∧
+      b = b.take (b.length - rest.length) ++ rest ∧
+      Macsec.fromSlice (b.take (b.length - rest.length)) = .ok (h, []) := by
+  have t := macsec_table pre b; rw [hd] at t; exact t
+
+/-- (2) -/
+theorem macsec_slice_of_read (pre b g : Bytes) (hr : (Reads.macsec.run (readerAt pre b)).2 = .ok g) :
+    ∃ h rest, Macsec.fromSlice b = .ok (h, rest) ∧ b = g ++ rest ∧
+      (Reads.macsec.run (readerAt pre b)).1 = readerAdv pre b g.length ∧ Macsec.fromSlice g = .ok (h, []) := by
+  have t := macsec_table pre b
+  cases hd : Macsec.fromSlice b with
+  | ok x => rw [hd] at t; exact ⟨x.1, x.2, rfl, t.converse hr⟩
+  | error e =>
+    rw [hd] at t
+    rcases t with ⟨_, t⟩ | ⟨_, _, t⟩ <;> rw [t.snd] at hr <;> cases hr
+
+/-- (3) the content rejections coincide (same error; `linkText` = its canonical text with the offending
+    value), (4) a length error of `from_slice` is the reader's end of data -/
+theorem macsec_rejections_coincide (pre b : Bytes) :
+    (∀ s, (Reads.macsec.run (readerAt pre b)).2 = .error (.other s) ↔
+      ∃ e, Macsec.fromSlice b = .error e ∧ linkText e = some s) ∧
+    ((Reads.macsec.run (readerAt pre b)).2 = .error (.io .unexpectedEof) ↔
+      ∃ le, Macsec.fromSlice b = .error (.len le)) := by
+  have t := macsec_table pre b
+  cases hd : Macsec.fromSlice b with
+  | ok x =>
+    rw [hd] at t
+    refine ⟨fun s => ⟨fun hr => ?_, fun ⟨e, he, _⟩ => (by cases he)⟩, ⟨fun hr => ?_, fun ⟨e, he⟩ => (by cases he)⟩⟩
+    all_goals rw [t.1.snd] at hr; cases hr
+  | error e =>
+    rw [hd] at t
+    rcases t with ⟨⟨le, rfl⟩, t⟩ | ⟨_, ⟨w, rfl⟩, t⟩
+    · refine ⟨fun s => ⟨fun hr => ?_, fun ⟨e, he, ht⟩ => ?_⟩, ⟨fun _ => ⟨_, rfl⟩, fun _ => t.snd⟩⟩
+      · rw [t.snd] at hr; cases hr
+      · cases he; cases ht
+    · refine ⟨fun s => ⟨fun hr => ?_, fun ⟨e, he, ht⟩ => ?_⟩, ⟨fun hr => ?_, fun ⟨le, he⟩ => (by cases he)⟩⟩
+      · rw [t.snd] at hr; cases hr; exact ⟨_, rfl, rfl⟩
+      · cases he; cases ht; exact t.snd
+      · rw [t.snd] at hr; cases hr
+
+/-! #### TCP header (`TcpHeader::read` / `from_slice`): data offset check; `tcpLen b` = data offset · 4 -/
+
+/-- the complete comparison: for each outcome of `from_slice` what `read` does on the same bytes -/
+theorem tcp_read_vs_from_slice (pre b : Bytes) :
+    match Tcp.fromSlice b with
+    | .ok (h, rest) => OkRow Reads.tcp Tcp.fromSlice pre b h rest
+    | .error e =>
+      ((∃ le, e = .len le) ∧ ReadsEof Reads.tcp pre b) ∨
+      (20 ≤ b.length ∧ (∃ w, e = .content w) ∧ ReadsContent Reads.tcp pre b 20 e.render) :=
+  tcp_table pre b
+
+/-- (1) -/
+theorem tcp_read_of_slice (pre b : Bytes) (h) (rest : Bytes) (hd : Tcp.fromSlice b = .ok (h, rest)) :
+    ReadsOk Reads.tcp pre b (b.length - rest.length) (b.take (b.length - rest.length)) ∧
+      b = b.take (b.length - rest.length) ++ rest ∧
+      Tcp.fromSlice (b.take (b.length - rest.length)) = .ok (h, []) := by
+  have t := tcp_table pre b; rw [hd] at t; exact t
+
+/-- (2) -/
+theorem tcp_slice_of_read (pre b g : Bytes) (hr : (Reads.tcp.run (readerAt pre b)).2 = .ok g) :
+    ∃ h rest, Tcp.fromSlice b = .ok (h, rest) ∧ b = g ++ rest ∧
+      (Reads.tcp.run (readerAt pre b)).1 = readerAdv pre b g.length ∧ Tcp.fromSlice g = .ok (h, []) := by
+  have t := tcp_table pre b
+  cases hd : Tcp.fromSlice b with
+  | ok x => rw [hd] at t; exact ⟨x.1, x.2, rfl, t.converse hr⟩
+  | error e =>
+    rw [hd] at t
+    rcases t with ⟨_, t⟩ | ⟨_, _, t⟩ <;> rw [t.snd] at hr <;> cases hr
+
+/-- (3) the content rejections coincide (same error; `linkText` = its canonical text with the offending
+    value), (4) a length error of `from_slice` is the reader's end of data -/
+theorem tcp_rejections_coincide (pre b : Bytes) :
+    (∀ s, (Reads.tcp.run (readerAt pre b)).2 = .error (.other s) ↔
+      ∃ e, Tcp.fromSlice b = .error e ∧ linkText e = some s) ∧
+    ((Reads.tcp.run (readerAt pre b)).2 = .error (.io .unexpectedEof) ↔
+      ∃ le, Tcp.fromSlice b = .error (.len le)) := by
+  have t := tcp_table pre b
+  cases hd : Tcp.fromSlice b with
+  | ok x =>
+    rw [hd] at t
+    refine ⟨fun s => ⟨fun hr => ?_, fun ⟨e, he, _⟩ => (by cases he)⟩, ⟨fun hr => ?_, fun ⟨e, he⟩ => (by cases he)⟩⟩
+    all_goals rw [t.1.snd] at hr; cases hr
+  | error e =>
+    rw [hd] at t
+    rcases t with ⟨⟨le, rfl⟩, t⟩ | ⟨_, ⟨w, rfl⟩, t⟩
+    · refine ⟨fun s => ⟨fun hr => ?_, fun ⟨e, he, ht⟩ => ?_⟩, ⟨fun _ => ⟨_, rfl⟩, fun _ => t.snd⟩⟩
+      · rw [t.snd] at hr; cases hr
+      · cases he; cases ht
+    · refine ⟨fun s => ⟨fun hr => ?_, fun ⟨e, he, ht⟩ => ?_⟩, ⟨fun hr => ?_, fun ⟨le, he⟩ => (by cases he)⟩⟩
+      · rw [t.snd] at hr; cases hr; exact ⟨_, rfl, rfl⟩
+      · cases he; cases ht; exact t.snd
+      · rw [t.snd] at hr; cases hr
+
+/-! #### ICMPv4 header (`Icmpv4Header::read` / `from_slice`); `icmp4Len b` = 20 for timestamp / timestamp
+  reply messages (type 13 / 14, code 0), 8 otherwise.  EXCEPTION (needs the end of the slice):
+  `from_slice` accepts a timestamp message only if the slice is *exactly* 20 bytes long; the reader
+  cannot see the end, reads the 20 bytes and succeeds. -/
+
+/-- the complete comparison: for each outcome of `from_slice` what `read` does on the same bytes -/
+theorem icmpv4_read_vs_from_slice (pre b : Bytes) :
+    match Icmp4.fromSlice b with
+    | .ok (h, rest) => OkRow Reads.icmpv4 Icmp4.fromSlice pre b h rest
+    | .error e =>
+      (∃ le, e = .len le) ∧
+      ((b.length < icmp4Len b ∧ ReadsEof Reads.icmpv4 pre b) ∨
+       (icmp4Len b = 20 ∧ 20 < b.length ∧ ReadsOk Reads.icmpv4 pre b 20 (b.take 20) ∧
+         ∃ h, Icmp4.fromSlice (b.take 20) = .ok (h, []))) :=
+  icmpv4_table pre b
+
+/-- (1) -/
+theorem icmpv4_read_of_slice (pre b : Bytes) (h) (rest : Bytes) (hd : Icmp4.fromSlice b = .ok (h, rest)) :
+    ReadsOk Reads.icmpv4 pre b (b.length - rest.length) (b.take (b.length - rest.length)) ∧
+      b = b.take (b.length - rest.length) ++ rest ∧
+      Icmp4.fromSlice (b.take (b.length - rest.length)) = .ok (h, []) := by
+  have t := icmpv4_table pre b; rw [hd] at t; exact t
+
+/-- (2) `read` succeeds with `g` ⟹ `b = g ++ rest`, `g.length` bytes consumed, `g` decodes to a header,
+    and `from_slice b` gives the same header — except for a timestamp message followed by more bytes,
+    which `from_slice` rejects with a length error (exact-size rule) -/
+theorem icmpv4_slice_of_read (pre b g : Bytes) (hr : (Reads.icmpv4.run (readerAt pre b)).2 = .ok g) :
+    ∃ h rest, b = g ++ rest ∧ (Reads.icmpv4.run (readerAt pre b)).1 = readerAdv pre b g.length ∧
+      Icmp4.fromSlice g = .ok (h, []) ∧
+      (Icmp4.fromSlice b = .ok (h, rest) ∨
+       (icmp4Len b = 20 ∧ rest ≠ [] ∧ ∃ le, Icmp4.fromSlice b = .error (.len le))) := by
+  have t := icmpv4_table pre b
+  cases hd : Icmp4.fromSlice b with
+  | ok x =>
+    rw [hd] at t
+    have c := t.converse hr
+    exact ⟨x.1, x.2, c.1, c.2.1, c.2.2, .inl rfl⟩
+  | error e =>
+    rw [hd] at t
+    obtain ⟨⟨le, rfl⟩, ⟨_, t⟩ | ⟨h20, hlt, t, h, hg⟩⟩ := t
+    · rw [t.snd] at hr; cases hr
+    · rw [t.snd] at hr; cases hr
+      have hl : (b.take 20).length = 20 := by simp [List.length_take]; omega
+      refine ⟨h, b.drop 20, (List.take_append_drop 20 b).symm, by rw [hl]; exact t.fst, hg, .inr ⟨h20, ?_, le, rfl⟩⟩
+      intro h0
+      have : (b.drop 20).length = 0 := by rw [h0]; rfl
+      simp [List.length_drop] at this; omega
+
+/-- (3)+(4) no content errors on either side; `read` fails (end of data) exactly when fewer than
+    `icmp4Len b` bytes are there, and then `from_slice` reports a length error -/
+theorem icmpv4_rejections_coincide (pre b : Bytes) :
+    (∀ e, (Reads.icmpv4.run (readerAt pre b)).2 = .error e →
+      e = .io .unexpectedEof ∧ b.length < icmp4Len b ∧ ∃ le, Icmp4.fromSlice b = .error (.len le)) ∧
+    (∀ e, Icmp4.fromSlice b = .error e → (∃ le, e = .len le) ∧
+      (b.length < icmp4Len b ∧ ReadsEof Reads.icmpv4 pre b ∨ icmp4Len b = 20 ∧ 20 < b.length)) := by
+  have t := icmpv4_table pre b
+  cases hd : Icmp4.fromSlice b with
+  | ok x =>
+    rw [hd] at t
+    exact ⟨fun e he => (by rw [t.1.snd] at he; cases he), fun e he => (by cases he)⟩
+  | error e =>
+    rw [hd] at t
+    obtain ⟨⟨le, rfl⟩, ⟨hs, t⟩ | ⟨h20, hlt, t, _⟩⟩ := t
+    · exact ⟨fun e he => (by rw [t.snd] at he; cases he; exact ⟨rfl, hs, le, rfl⟩),
+        fun e he => (by cases he; exact ⟨⟨_, rfl⟩, .inl ⟨hs, t⟩⟩)⟩
+    · exact ⟨fun e he => (by rw [t.snd] at he; cases he),
+        fun e he => (by cases he; exact ⟨⟨_, rfl⟩, .inr ⟨h20, hlt⟩⟩)⟩
+
+/-! #### ICMPv6 header (`Icmpv6Header::read` / `from_slice`).  EXCEPTION (needs the end of the slice):
+  `from_slice` rejects slices longer than `u32::MAX` bytes; the reader reads 8 bytes and succeeds. -/
+
+/-- the complete comparison: for each outcome of `from_slice` what `read` does on the same bytes -/
+theorem icmpv6_read_vs_from_slice (pre b : Bytes) :
+    match Icmp6.fromSlice b with
+    | .ok (h, rest) => OkRow Reads.icmpv6 Icmp6.fromSlice pre b h rest
+    | .error e =>
+      (b.length < 8 ∧ e = lenErrSlice 8 b.length "Icmpv6" ∧ ReadsEof Reads.icmpv6 pre b) ∨
+      (4294967295 < b.length ∧ e = lenErrSlice 4294967295 b.length "Icmpv6" ∧
+        ReadsOk Reads.icmpv6 pre b 8 (b.take 8) ∧ ∃ h, Icmp6.fromSlice (b.take 8) = .ok (h, [])) :=
+  icmpv6_table pre b
+
+/-- (1) -/
+theorem icmpv6_read_of_slice (pre b : Bytes) (h) (rest : Bytes) (hd : Icmp6.fromSlice b = .ok (h, rest)) :
+    ReadsOk Reads.icmpv6 pre b (b.length - rest.length) (b.take (b.length - rest.length)) ∧
+      b = b.take (b.length - rest.length) ++ rest ∧
+      Icmp6.fromSlice (b.take (b.length - rest.length)) = .ok (h, []) := by
+  have t := icmpv6_table pre b; rw [hd] at t; exact t
+
+/-- (2), with the explicit exception for slices longer than `u32::MAX` -/
+theorem icmpv6_slice_of_read (pre b g : Bytes) (hr : (Reads.icmpv6.run (readerAt pre b)).2 = .ok g) :
+    ∃ h rest, b = g ++ rest ∧ (Reads.icmpv6.run (readerAt pre b)).1 = readerAdv pre b g.length ∧
+      Icmp6.fromSlice g = .ok (h, []) ∧
+      (Icmp6.fromSlice b = .ok (h, rest) ∨
+       (4294967295 < b.length ∧ Icmp6.fromSlice b = .error (lenErrSlice 4294967295 b.length "Icmpv6"))) := by
+  have t := icmpv6_table pre b
+  cases hd : Icmp6.fromSlice b with
+  | ok x =>
+    rw [hd] at t
+    have c := t.converse hr
+    exact ⟨x.1, x.2, c.1, c.2.1, c.2.2, .inl rfl⟩
+  | error e =>
+    rw [hd] at t
+    obtain ⟨_, _, t⟩ | ⟨hlt, rfl, t, h, hg⟩ := t
+    · rw [t.snd] at hr; cases hr
+    · rw [t.snd] at hr; cases hr
+      have hl : (b.take 8).length = 8 := by simp [List.length_take]; omega
+      exact ⟨h, b.drop 8, (List.take_append_drop 8 b).symm, by rw [hl]; exact t.fst, hg, .inr ⟨hlt, rfl⟩⟩
+
+/-- (3)+(4) no content errors on either side; `read` fails (end of data) exactly when fewer than 8 bytes
+    are there, and then `from_slice` reports the length error -/
+theorem icmpv6_rejections_coincide (pre b : Bytes) :
+    (∀ e, (Reads.icmpv6.run (readerAt pre b)).2 = .error e →
+      e = .io .unexpectedEof ∧ b.length < 8 ∧ Icmp6.fromSlice b = .error (lenErrSlice 8 b.length "Icmpv6")) ∧
+    (∀ e, Icmp6.fromSlice b = .error e →
+      (b.length < 8 ∧ e = lenErrSlice 8 b.length "Icmpv6" ∧ ReadsEof Reads.icmpv6 pre b) ∨
+      (4294967295 < b.length ∧ e = lenErrSlice 4294967295 b.length "Icmpv6")) := by
+  have t := icmpv6_table pre b
+  cases hd : Icmp6.fromSlice b with
+  | ok x =>
+    rw [hd] at t
+    exact ⟨fun e he => (by rw [t.1.snd] at he; cases he), fun e he => (by cases he)⟩
+  | error e =>
+    rw [hd] at t
+    obtain ⟨hs, rfl, t⟩ | ⟨hlt, rfl, t, _⟩ := t
+    · exact ⟨fun e he => (by rw [t.snd] at he; cases he; exact ⟨rfl, hs, rfl⟩),
+        fun e he => (by cases he; exact .inl ⟨hs, rfl, t⟩)⟩
+    · exact ⟨fun e he => (by rw [t.snd] at he; cases he),
+        fun e he => (by cases he; exact .inr ⟨hlt, rfl⟩)⟩
+
+/-! #### IPv4 header (`Ipv4Header::read` / `from_slice`): version and IHL checks; `ipv4Len b` = IHL · 4.
+  (The single-header decoder has no `total_len` rule; that one is part of `IpHeaders`, below.)
+  The reader looks at the version nibble after ONE byte, the slice decoder checks `len ≥ 20` first:
+  on a slice shorter than 20 bytes with a wrong version nibble `from_slice` reports the length, `read`
+  the version.  Stated explicitly in the `.len` row. -/
+
+/-- the complete comparison: for each outcome of `from_slice` what `read` does on the same bytes -/
+theorem ipv4_header_read_vs_from_slice (pre b : Bytes) :
+    match Ipv4Header.fromSlice b with
+    | .ok (h, rest) => OkRow Reads.ipv4 Ipv4Header.fromSlice pre b h rest
+    | .error (.unexpectedVersion v) =>
+      20 ≤ b.length ∧ v = bAt b 0 >>> 4 ∧ v ≠ 4 ∧ ReadsContent Reads.ipv4 pre b 1 s!"err(version({v}))"
+    | .error (.headerLengthSmallerThanHeader i) =>
+      20 ≤ b.length ∧ i = bAt b 0 &&& 0xf ∧ i < 5 ∧ ReadsContent Reads.ipv4 pre b 20 s!"err(ihl({i}))"
+    | .error (.len le) =>
+      ((b.length < 20 ∧ le = sliceLenErr 20 b.length .ipv4Header) ∨
+       (20 ≤ b.length ∧ b.length < ipv4Len b ∧ le = sliceLenErr (ipv4Len b) b.length .ipv4Header)) ∧
+      (((b = [] ∨ bAt b 0 >>> 4 = 4) ∧ ReadsEof Reads.ipv4 pre b) ∨
+       (b ≠ [] ∧ b.length < 20 ∧ bAt b 0 >>> 4 ≠ 4 ∧
+         ReadsContent Reads.ipv4 pre b 1 s!"err(version({bAt b 0 >>> 4}))")) :=
+  ipv4_table pre b
+
+/-- (1) -/
+theorem ipv4_header_read_of_slice (pre b : Bytes) (h) (rest : Bytes)
+    (hd : Ipv4Header.fromSlice b = .ok (h, rest)) :
+    ReadsOk Reads.ipv4 pre b (b.length - rest.length) (b.take (b.length - rest.length)) ∧
+      b = b.take (b.length - rest.length) ++ rest ∧
+      Ipv4Header.fromSlice (b.take (b.length - rest.length)) = .ok (h, []) := by
+  have t := ipv4_table pre b; rw [hd] at t; exact t
+
+/-- (2) -/
+theorem ipv4_header_slice_of_read (pre b g : Bytes) (hr : (Reads.ipv4.run (readerAt pre b)).2 = .ok g) :
+    ∃ h rest, Ipv4Header.fromSlice b = .ok (h, rest) ∧ b = g ++ rest ∧
+      (Reads.ipv4.run (readerAt pre b)).1 = readerAdv pre b g.length ∧
+      Ipv4Header.fromSlice g = .ok (h, []) := by
+  have t := ipv4_table pre b
+  cases hd : Ipv4Header.fromSlice b with
+  | ok x => rw [hd] at t; exact ⟨x.1, x.2, rfl, t.converse hr⟩
+  | error e =>
+    rw [hd] at t
+    cases e with
+    | unexpectedVersion v => rw [t.2.2.2.snd] at hr; cases hr
+    | headerLengthSmallerThanHeader i => rw [t.2.2.2.snd] at hr; cases hr
+    | len le => rcases t.2 with ⟨_, t⟩ | ⟨_, _, _, t⟩ <;> rw [t.snd] at hr <;> cases hr
+
+/-- (3) a content error of `from_slice` is the content error of `read` (same text = same offending
+    value); conversely on a slice of at least 20 bytes; (4) a length error of `from_slice`: `read` never
+    succeeds, it reports the end of the data — or, on fewer than 20 bytes, the wrong version nibble -/
+theorem ipv4_header_rejections_coincide (pre b : Bytes) :
+    (∀ e s, Ipv4Header.fromSlice b = .error e → ipv4ErrText e = some s →
+      (Reads.ipv4.run (readerAt pre b)).2 = .error (.other s)) ∧
+    (20 ≤ b.length → ∀ s, (Reads.ipv4.run (readerAt pre b)).2 = .error (.other s) →
+      ∃ e, Ipv4Header.fromSlice b = .error e ∧ ipv4ErrText e = some s) ∧
+    (∀ le, Ipv4Header.fromSlice b = .error (.len le) →
+      (Reads.ipv4.run (readerAt pre b)).2 = .error (.io .unexpectedEof) ∨
+      (b.length < 20 ∧ (Reads.ipv4.run (readerAt pre b)).2 =
+        .error (.other s!"err(version({bAt b 0 >>> 4}))"))) ∧
+    ((Reads.ipv4.run (readerAt pre b)).2 = .error (.io .unexpectedEof) →
+      ∃ le, Ipv4Header.fromSlice b = .error (.len le)) := by
+  have t := ipv4_table pre b
+  cases hd : Ipv4Header.fromSlice b with
+  | ok x =>
+    rw [hd] at t
+    refine ⟨fun e s he => (by cases he), fun _ s hr => ?_, fun le he => (by cases he), fun hr => ?_⟩
+    all_goals rw [t.1.snd] at hr; cases hr
+  | error e =>
+    rw [hd] at t
+    cases e with
+    | unexpectedVersion v =>
+      refine ⟨fun e s he ht => ?_, fun _ s hr => ?_, fun le he => (by cases he), fun hr => ?_⟩
+      · cases he; cases ht; exact t.2.2.2.snd
+      · rw [t.2.2.2.snd] at hr; cases hr; exact ⟨_, rfl, rfl⟩
+      · rw [t.2.2.2.snd] at hr; cases hr
+    | headerLengthSmallerThanHeader i =>
+      refine ⟨fun e s he ht => ?_, fun _ s hr => ?_, fun le he => (by cases he), fun hr => ?_⟩
+      · cases he; cases ht; exact t.2.2.2.snd
+      · rw [t.2.2.2.snd] at hr; cases hr; exact ⟨_, rfl, rfl⟩
+      · rw [t.2.2.2.snd] at hr; cases hr
+    | len le =>
+      refine ⟨fun e s he ht => (by cases he; cases ht), fun h20 s hr => ?_, fun le' he => ?_, fun _ => ⟨_, rfl⟩⟩
+      · rcases t.2 with ⟨_, t⟩ | ⟨_, hl, _, _⟩
+        · rw [t.snd] at hr; cases hr
+        · omega
+      · rcases t.2 with ⟨_, t⟩ | ⟨_, hl, _, t⟩
+        · exact .inl t.snd
+        · exact .inr ⟨hl, t.snd⟩
+
+/-! #### IPv6 header (`Ipv6Header::read` / `from_slice`): version check.  (No `payload_length` rule in
+  the single-header decoder; that one is part of `IpHeaders`.)  Same check-order remark as for IPv4. -/
+
+/-- the complete comparison: for each outcome of `from_slice` what `read` does on the same bytes -/
+theorem ipv6_header_read_vs_from_slice (pre b : Bytes) :
+    match Ipv6Header.fromSlice b with
+    | .ok (h, rest) => OkRow Reads.ipv6 Ipv6Header.fromSlice pre b h rest
+    | .error (.unexpectedVersion v) =>
+      40 ≤ b.length ∧ v = bAt b 0 >>> 4 ∧ v ≠ 6 ∧ ReadsContent Reads.ipv6 pre b 1 s!"err(version({v}))"
+    | .error (.len le) =>
+      b.length < 40 ∧ le = sliceLenErr 40 b.length .ipv6Header ∧
+      (((b = [] ∨ bAt b 0 >>> 4 = 6) ∧ ReadsEof Reads.ipv6 pre b) ∨
+       (b ≠ [] ∧ bAt b 0 >>> 4 ≠ 6 ∧
+         ReadsContent Reads.ipv6 pre b 1 s!"err(version({bAt b 0 >>> 4}))")) :=
+  ipv6_table pre b
+
+/-- (1) -/
+theorem ipv6_header_read_of_slice (pre b : Bytes) (h) (rest : Bytes)
+    (hd : Ipv6Header.fromSlice b = .ok (h, rest)) :
+    ReadsOk Reads.ipv6 pre b (b.length - rest.length) (b.take (b.length - rest.length)) ∧
+      b = b.take (b.length - rest.length) ++ rest ∧
+      Ipv6Header.fromSlice (b.take (b.length - rest.length)) = .ok (h, []) := by
+  have t := ipv6_table pre b; rw [hd] at t; exact t
+
+/-- (2) -/
+theorem ipv6_header_slice_of_read (pre b g : Bytes) (hr : (Reads.ipv6.run (readerAt pre b)).2 = .ok g) :
+    ∃ h rest, Ipv6Header.fromSlice b = .ok (h, rest) ∧ b = g ++ rest ∧
+      (Reads.ipv6.run (readerAt pre b)).1 = readerAdv pre b g.length ∧
+      Ipv6Header.fromSlice g = .ok (h, []) := by
+  have t := ipv6_table pre b
+  cases hd : Ipv6Header.fromSlice b with
+  | ok x => rw [hd] at t; exact ⟨x.1, x.2, rfl, t.converse hr⟩
+  | error e =>
+    rw [hd] at t
+    cases e with
+    | unexpectedVersion v => rw [t.2.2.2.snd] at hr; cases hr
+    | len le => rcases t.2.2 with ⟨_, t⟩ | ⟨_, _, t⟩ <;> rw [t.snd] at hr <;> cases hr
+
+/-- (3) + (4), as for IPv4 -/
+theorem ipv6_header_rejections_coincide (pre b : Bytes) :
+    (∀ e s, Ipv6Header.fromSlice b = .error e → ipv6ErrText e = some s →
+      (Reads.ipv6.run (readerAt pre b)).2 = .error (.other s)) ∧
+    (40 ≤ b.length → ∀ s, (Reads.ipv6.run (readerAt pre b)).2 = .error (.other s) →
+      ∃ e, Ipv6Header.fromSlice b = .error e ∧ ipv6ErrText e = some s) ∧
+    (∀ le, Ipv6Header.fromSlice b = .error (.len le) → b.length < 40 ∧
+      ((Reads.ipv6.run (readerAt pre b)).2 = .error (.io .unexpectedEof) ∨
+       (Reads.ipv6.run (readerAt pre b)).2 = .error (.other s!"err(version({bAt b 0 >>> 4}))"))) ∧
+    ((Reads.ipv6.run (readerAt pre b)).2 = .error (.io .unexpectedEof) →
+      ∃ le, Ipv6Header.fromSlice b = .error (.len le)) := by
+  have t := ipv6_table pre b
+  cases hd : Ipv6Header.fromSlice b with
+  | ok x =>
+    rw [hd] at t
+    refine ⟨fun e s he => (by cases he), fun _ s hr => ?_, fun le he => (by cases he), fun hr => ?_⟩
+    all_goals rw [t.1.snd] at hr; cases hr
+  | error e =>
+    rw [hd] at t
+    cases e with
+    | unexpectedVersion v =>
+      refine ⟨fun e s he ht => ?_, fun _ s hr => ?_, fun le he => (by cases he), fun hr => ?_⟩
+      · cases he; cases ht; exact t.2.2.2.snd
+      · rw [t.2.2.2.snd] at hr; cases hr; exact ⟨_, rfl, rfl⟩
+      · rw [t.2.2.2.snd] at hr; cases hr
+    | len le =>
+      refine ⟨fun e s he ht => (by cases he; cases ht), fun h40 s hr => (by have := t.1; omega),
+        fun le' he => ⟨t.1, ?_⟩, fun _ => ⟨_, rfl⟩⟩
+      rcases t.2.2 with ⟨_, t⟩ | ⟨_, _, t⟩
+      · exact .inl t.snd
+      · exact .inr t.snd
+
+/-! #### IP authentication header (`IpAuthHeader::read` / `from_slice`): payload length 0 check;
+  `authLen b` = (b[1]+2)·4 -/
+
+/-- the complete comparison: for each outcome of `from_slice` what `read` does on the same bytes
+    (the `unwrap` of `to_header` is unreachable) -/
+theorem ip_auth_read_vs_from_slice (pre b : Bytes) :
+    match IpAuthHeader.fromSlice b with
+    | .ok (h, rest) => OkRow Reads.auth IpAuthHeader.fromSlice pre b h rest
+    | .error .zeroPayloadLen =>
+      12 ≤ b.length ∧ bAt b 1 = 0 ∧ ReadsContent Reads.auth pre b 12 "err(zeropayloadlen)"
+    | .error (.len le) =>
+      ((b.length < 12 ∧ le = sliceLenErr 12 b.length .ipAuthHeader) ∨
+       (12 ≤ b.length ∧ b.length < authLen b ∧ le = sliceLenErr (authLen b) b.length .ipAuthHeader)) ∧
+      ReadsEof Reads.auth pre b
+    | .error .panicUnwrap => False :=
+  auth_table pre b
+
+/-- (1) -/
+theorem ip_auth_read_of_slice (pre b : Bytes) (h) (rest : Bytes)
+    (hd : IpAuthHeader.fromSlice b = .ok (h, rest)) :
+    ReadsOk Reads.auth pre b (b.length - rest.length) (b.take (b.length - rest.length)) ∧
+      b = b.take (b.length - rest.length) ++ rest ∧
+      IpAuthHeader.fromSlice (b.take (b.length - rest.length)) = .ok (h, []) := by
+  have t := auth_table pre b; rw [hd] at t; exact t
+
+/-- (2) -/
+theorem ip_auth_slice_of_read (pre b g : Bytes) (hr : (Reads.auth.run (readerAt pre b)).2 = .ok g) :
+    ∃ h rest, IpAuthHeader.fromSlice b = .ok (h, rest) ∧ b = g ++ rest ∧
+      (Reads.auth.run (readerAt pre b)).1 = readerAdv pre b g.length ∧
+      IpAuthHeader.fromSlice g = .ok (h, []) := by
+  have t := auth_table pre b
+  cases hd : IpAuthHeader.fromSlice b with
+  | ok x => rw [hd] at t; exact ⟨x.1, x.2, rfl, t.converse hr⟩
+  | error e =>
+    rw [hd] at t
+    cases e with
+    | zeroPayloadLen => rw [t.2.2.snd] at hr; cases hr
+    | len le => rw [t.2.snd] at hr; cases hr
+    | panicUnwrap => exact t.elim
+
+/-- (3) the content rejection coincides, (4) a length error of `from_slice` is the reader's end of data -/
+theorem ip_auth_rejections_coincide (pre b : Bytes) :
+    (∀ s, (Reads.auth.run (readerAt pre b)).2 = .error (.other s) ↔
+      ∃ e, IpAuthHeader.fromSlice b = .error e ∧ authErrText e = some s) ∧
+    ((Reads.auth.run (readerAt pre b)).2 = .error (.io .unexpectedEof) ↔
+      ∃ le, IpAuthHeader.fromSlice b = .error (.len le)) := by
+  have t := auth_table pre b
+  cases hd : IpAuthHeader.fromSlice b with
+  | ok x =>
+    rw [hd] at t
+    refine ⟨fun s => ⟨fun hr => ?_, fun ⟨e, he, _⟩ => (by cases he)⟩, ⟨fun hr => ?_, fun ⟨e, he⟩ => (by cases he)⟩⟩
+    all_goals rw [t.1.snd] at hr; cases hr
+  | error e =>
+    rw [hd] at t
+    cases e with
+    | zeroPayloadLen =>
+      refine ⟨fun s => ⟨fun hr => ?_, fun ⟨e, he, ht⟩ => ?_⟩, ⟨fun hr => ?_, fun ⟨le, he⟩ => (by cases he)⟩⟩
+      · rw [t.2.2.snd] at hr; cases hr; exact ⟨_, rfl, rfl⟩
+      · cases he; cases ht; exact t.2.2.snd
+      · rw [t.2.2.snd] at hr; cases hr
+    | len le =>
+      refine ⟨fun s => ⟨fun hr => ?_, fun ⟨e, he, ht⟩ => ?_⟩, ⟨fun _ => ⟨_, rfl⟩, fun _ => t.2.snd⟩⟩
+      · rw [t.2.snd] at hr; cases hr
+      · cases he; cases ht
+    | panicUnwrap => exact t.elim
+
+/-! #### Ipv4Extensions (`Ipv4Extensions::read` / `from_slice`): the authentication header, if the start
+  ip number announces one.  The reader returns the gathered bytes of that header (or `none`) and the next
+  ip number; the decoder of the gathered bytes is `Ipv4Extensions.fromSlice start` itself. -/
+
+/-- the complete comparison: for each outcome of `from_slice` what `read` does on the same bytes -/
+theorem ipv4_exts_read_vs_from_slice (start : Nat) (pre b : Bytes) :
+    match Ipv4Extensions.fromSlice start b with
+    | .ok (e, next, rest) =>
+      ReadsOk (Reads.ipv4exts start) pre b (b.length - rest.length)
+        (if ipNumberAuth = start then some (b.take (b.length - rest.length)) else none, next) ∧
+      b = b.take (b.length - rest.length) ++ rest ∧
+      Ipv4Extensions.fromSlice start (b.take (b.length - rest.length)) = .ok (e, next, [])
+    | .error .zeroPayloadLen =>
+      ipNumberAuth = start ∧ 12 ≤ b.length ∧ bAt b 1 = 0 ∧
+      ReadsContent (Reads.ipv4exts start) pre b 12 "err(zeropayloadlen)"
+    | .error (.len le) =>
+      ipNumberAuth = start ∧
+      ((b.length < 12 ∧ le = sliceLenErr 12 b.length .ipAuthHeader) ∨
+       (12 ≤ b.length ∧ b.length < authLen b ∧ le = sliceLenErr (authLen b) b.length .ipAuthHeader)) ∧
+      ReadsEof (Reads.ipv4exts start) pre b
+    | .error .panicUnwrap => False :=
+  ipv4exts_table start pre b
+
+/-- (1) -/
+theorem ipv4_exts_read_of_slice (start : Nat) (pre b : Bytes) (e) (next : Nat) (rest : Bytes)
+    (hd : Ipv4Extensions.fromSlice start b = .ok (e, next, rest)) :
+    ReadsOk (Reads.ipv4exts start) pre b (b.length - rest.length)
+        (if ipNumberAuth = start then some (b.take (b.length - rest.length)) else none, next) ∧
+      b = b.take (b.length - rest.length) ++ rest ∧
+      Ipv4Extensions.fromSlice start (b.take (b.length - rest.length)) = .ok (e, next, []) := by
+  have t := ipv4exts_table start pre b; rw [hd] at t; exact t
+
+/-- (2) `read` succeeds with `(g, next)` ⟹ `from_slice` succeeds with the same next ip number, the
+    gathered bytes are the ones in front of `rest`, and they decode to the same extensions -/
+theorem ipv4_exts_slice_of_read (start : Nat) (pre b : Bytes) (g : Option Bytes) (next : Nat)
+    (hr : ((Reads.ipv4exts start).run (readerAt pre b)).2 = .ok (g, next)) :
+    ∃ e rest, Ipv4Extensions.fromSlice start b = .ok (e, next, rest) ∧ b = g.getD [] ++ rest ∧
+      ((Reads.ipv4exts start).run (readerAt pre b)).1 = readerAdv pre b (g.getD []).length ∧
+      (g.isSome ↔ ipNumberAuth = start) ∧
+      Ipv4Extensions.fromSlice start (g.getD []) = .ok (e, next, []) := by
+  have t := ipv4exts_table start pre b
+  cases hd : Ipv4Extensions.fromSlice start b with
+  | ok x =>
+    obtain ⟨e, n, rest⟩ := x
+    rw [hd] at t
+    obtain ⟨t1, t2, t3⟩ := t
+    rw [t1.snd] at hr
+    cases hr
+    have hl : (b.take (b.length - rest.length)).length = b.length - rest.length := by
+      simp [List.length_take]
+    by_cases hs : ipNumberAuth = start
+    · simp only [if_pos hs, Option.getD_some, hl, Option.isSome_some, true_iff]
+      exact ⟨e, rest, rfl, t2, t1.fst, hs, t3⟩
+    · have h0 : b.length - rest.length = 0 := by
+        have := ipv4exts_dec start b
+        rw [if_neg hs, hd] at this
+        cases this; simp
+      simp only [if_neg hs, Option.getD_none, List.length_nil, Option.isSome_none, List.nil_append]
+      rw [h0] at t1 t2 t3
+      exact ⟨e, rest, rfl, by simpa using t2, t1.fst, ⟨fun h => (by cases h), fun h => absurd h hs⟩, by simpa using t3⟩
+  | error e =>
+    rw [hd] at t
+    cases e with
+    | zeroPayloadLen => rw [t.2.2.2.snd] at hr; cases hr
+    | len le => rw [t.2.2.snd] at hr; cases hr
+    | panicUnwrap => exact t.elim
+
+/-- (3) the content rejection coincides, (4) a length error of `from_slice` is the reader's end of data -/
+theorem ipv4_exts_rejections_coincide (start : Nat) (pre b : Bytes) :
+    (∀ s, ((Reads.ipv4exts start).run (readerAt pre b)).2 = .error (.other s) ↔
+      ∃ e, Ipv4Extensions.fromSlice start b = .error e ∧ authErrText e = some s) ∧
+    (((Reads.ipv4exts start).run (readerAt pre b)).2 = .error (.io .unexpectedEof) ↔
+      ∃ le, Ipv4Extensions.fromSlice start b = .error (.len le)) := by
+  have t := ipv4exts_table start pre b
+  cases hd : Ipv4Extensions.fromSlice start b with
+  | ok x =>
+    rw [hd] at t
+    refine ⟨fun s => ⟨fun hr => ?_, fun ⟨e, he, _⟩ => (by cases he)⟩, ⟨fun hr => ?_, fun ⟨e, he⟩ => (by cases he)⟩⟩
+    all_goals rw [t.1.snd] at hr; cases hr
+  | error e =>
+    rw [hd] at t
+    cases e with
+    | zeroPayloadLen =>
+      refine ⟨fun s => ⟨fun hr => ?_, fun ⟨e, he, ht⟩ => ?_⟩, ⟨fun hr => ?_, fun ⟨le, he⟩ => (by cases he)⟩⟩
+      · rw [t.2.2.2.snd] at hr; cases hr; exact ⟨_, rfl, rfl⟩
+      · cases he; cases ht; exact t.2.2.2.snd
+      · rw [t.2.2.2.snd] at hr; cases hr
+    | len le =>
+      refine ⟨fun s => ⟨fun hr => ?_, fun ⟨e, he, ht⟩ => ?_⟩, ⟨fun _ => ⟨_, rfl⟩, fun _ => t.2.2.snd⟩⟩
+      · rw [t.2.2.snd] at hr; cases hr
+      · cases he; cases ht
+    | panicUnwrap => exact t.elim
+
+/-! #### Ipv6Extensions (`Ipv6Extensions::read` / `from_slice`): the whole extension header chain.
+  Slice side: `Ext.Exts.fromSlice` (the model of C12, `ext.from_slice` correspondence).  The reader returns,
+  per header, the bytes it gathered (`ExtsRead.got`, in reading order) and the next ip number.  Glue
+  (Lemmas/ReadVsSlice.lean): `gathered got` = the concatenation of the gathered bytes; `decodeGot got` =
+  `decode ∘ gather`: every gathered header decoded with the slice decoder of its own type and put into the
+  slot the reader filled; `extsErrText` = canonical text of the two content errors (hop-by-hop header not
+  at the start, authentication header with payload length 0).  Proved by induction along the two loops
+  (`loop_rel`): the reader's free-slot list and the decoder's partially filled struct stay in step
+  (`FreeInv`), including the routing / final-destination-options bookkeeping. -/
+
+/-- the complete comparison: for each outcome of `from_slice` what `read` does on the same bytes
+    (the `unwrap`s of `to_header` are unreachable) -/
+theorem ipv6_exts_read_vs_from_slice (start : Nat) (pre b : Bytes) :
+    match Ext.Exts.fromSlice start b with
+    | .ok (e, next, rest) =>
+      ∃ got, ReadsOk (Reads.ipv6exts start) pre b (b.length - rest.length) { got := got, next := next } ∧
+        b = b.take (b.length - rest.length) ++ rest ∧
+        gathered got = b.take (b.length - rest.length) ∧ decodeGot got = some e ∧
+        Ext.Exts.fromSlice start (b.take (b.length - rest.length)) = .ok (e, next, [])
+    | .error (.err (.len _)) => ReadsEof (Reads.ipv6exts start) pre b
+    | .error (.err (.content c)) =>
+      ∃ n, n ≤ b.length ∧ ReadsContent (Reads.ipv6exts start) pre b n (extsErrText c)
+    | .error .panic => False :=
+  ipv6exts_table start pre b
+
+/-- (1) `from_slice` succeeds ⟹ `read` succeeds with the same next ip number, the gathered headers are,
+    concatenated, exactly the bytes in front of `rest` (all consumed, nothing more), and they decode to
+    the same `Ipv6Extensions` -/
+theorem ipv6_exts_read_of_slice (start : Nat) (pre b : Bytes) (e : Ext.Exts) (next : Nat) (rest : Bytes)
+    (hd : Ext.Exts.fromSlice start b = .ok (e, next, rest)) :
+    ∃ got, ReadsOk (Reads.ipv6exts start) pre b (b.length - rest.length) { got := got, next := next } ∧
+      b = b.take (b.length - rest.length) ++ rest ∧
+      gathered got = b.take (b.length - rest.length) ∧ decodeGot got = some e ∧
+      Ext.Exts.fromSlice start (b.take (b.length - rest.length)) = .ok (e, next, []) := by
+  have t := ipv6exts_table start pre b; rw [hd] at t; exact t
+
+/-- (2) `read` succeeds with `r` ⟹ `from_slice` succeeds with the same next ip number, `b` is the gathered
+    bytes followed by `rest`, exactly the gathered bytes were consumed, and they decode to the same struct
+    (header by header, and through `from_slice` on the gathered bytes) -/
+theorem ipv6_exts_slice_of_read (start : Nat) (pre b : Bytes) (r : Reads.ExtsRead)
+    (hr : ((Reads.ipv6exts start).run (readerAt pre b)).2 = .ok r) :
+    ∃ e rest, Ext.Exts.fromSlice start b = .ok (e, r.next, rest) ∧ b = gathered r.got ++ rest ∧
+      ((Reads.ipv6exts start).run (readerAt pre b)).1 = readerAdv pre b (gathered r.got).length ∧
+      decodeGot r.got = some e ∧ Ext.Exts.fromSlice start (gathered r.got) = .ok (e, r.next, []) := by
+  have t := ipv6exts_table start pre b
+  cases hd : Ext.Exts.fromSlice start b with
+  | ok x =>
+    obtain ⟨e, n, rest⟩ := x
+    rw [hd] at t
+    obtain ⟨got, t1, t2, t3, t4, t5⟩ := t
+    rw [t1.snd] at hr
+    cases hr
+    have hl : (b.take (b.length - rest.length)).length = b.length - rest.length := by
+      simp [List.length_take]
+    exact ⟨e, rest, rfl, by rw [t3]; exact t2, by rw [t3, hl]; exact t1.fst, t4, by rw [t3]; exact t5⟩
+  | error f =>
+    rw [hd] at t
+    cases f with
+    | panic => exact t.elim
+    | err se =>
+      cases se with
+      | len le => rw [t.snd] at hr; cases hr
+      | content c => obtain ⟨n, _, t⟩ := t; rw [t.snd] at hr; cases hr
+
+/-- (3) the content rejections coincide (same error), (4) a length error of `from_slice` (any header of
+    the chain cut short) is the reader's end of data, everything consumed -/
+theorem ipv6_exts_rejections_coincide (start : Nat) (pre b : Bytes) :
+    (∀ s, ((Reads.ipv6exts start).run (readerAt pre b)).2 = .error (.other s) ↔
+      ∃ c, Ext.Exts.fromSlice start b = .error (.err (.content c)) ∧ extsErrText c = s) ∧
+    (((Reads.ipv6exts start).run (readerAt pre b)).2 = .error (.io .unexpectedEof) ↔
+      ∃ le, Ext.Exts.fromSlice start b = .error (.err (.len le))) := by
+  have t := ipv6exts_table start pre b
+  cases hd : Ext.Exts.fromSlice start b with
+  | ok x =>
+    obtain ⟨e, n, rest⟩ := x
+    rw [hd] at t
+    obtain ⟨got, t1, _⟩ := t
+    refine ⟨fun s => ⟨fun hr => ?_, fun ⟨c, he, _⟩ => (by cases he)⟩, ⟨fun hr => ?_, fun ⟨e, he⟩ => (by cases he)⟩⟩
+    all_goals rw [t1.snd] at hr; cases hr
+  | error f =>
+    rw [hd] at t
+    cases f with
+    | panic => exact t.elim
+    | err se =>
+      cases se with
+      | len le =>
+        refine ⟨fun s => ⟨fun hr => ?_, fun ⟨c, he, _⟩ => (by cases he)⟩, ⟨fun _ => ⟨_, rfl⟩, fun _ => t.snd⟩⟩
+        rw [t.snd] at hr; cases hr
+      | content c =>
+        obtain ⟨n, _, t⟩ := t
+        refine ⟨fun s => ⟨fun hr => ?_, fun ⟨c', he, ht⟩ => ?_⟩, ⟨fun hr => ?_, fun ⟨le, he⟩ => (by cases he)⟩⟩
+        · rw [t.snd] at hr; cases hr; exact ⟨_, rfl, rfl⟩
+        · cases he; subst ht; exact t.snd
+        · rw [t.snd] at hr; cases hr
+
+/-- hop-by-hop options (8 bytes) → fragment header (8 bytes) → UDP, + 1 byte; the hypotheses of (1), (2)
+    and of the content row are satisfiable -/
+def exChain : Bytes := [44, 0, 1, 2, 3, 4, 5, 6, 17, 0, 0, 9, 0, 0, 0, 5, 0x77]
+theorem exChain_from_slice : Ext.Exts.fromSlice 0 exChain =
+    .ok ({ hopByHopOptions := some { nextHeader := 44, payload := [1, 2, 3, 4, 5, 6] },
+           destinationOptions := none, routing := none,
+           fragment := some { nextHeader := 17, fragmentOffset := 1, moreFragments := true, identification := 5 },
+           auth := none }, 17, [0x77]) := by
+  simp [Ext.Exts.fromSlice, exChain, Ext.rawSliceLen, Ext.rawToHeader, Ext.Raw.newRaw, sub, bAt,
+    Ext.fromSliceLoop, Ext.fragFromSlice, Ext.Exts.empty, be16, be32]
+example : ∃ r, ((Reads.ipv6exts 0).run (readerAt [0xff] exChain)).2 = .ok r ∧ r.next = 17 ∧
+    gathered r.got = exChain.take 16 := by
+  obtain ⟨got, h1, _, h3, _, _⟩ := ipv6_exts_read_of_slice 0 [0xff] exChain _ _ _ exChain_from_slice
+  exact ⟨_, h1.snd, rfl, h3⟩
+/-- a second hop-by-hop header behind the first one: `HopByHopNotAtStart` on both sides -/
+example : Ext.Exts.fromSlice 0 [0, 0, 1, 2, 3, 4, 5, 6, 9] = .error (.err (.content .hopByHopNotAtStart)) := by
+  simp [Ext.Exts.fromSlice, Ext.rawSliceLen, Ext.rawToHeader, Ext.Raw.newRaw, sub, bAt, Ext.fromSliceLoop]
+
+/-! #### the hypotheses of the theorems above are satisfiable (concrete packets, `pre` non-empty: the reader
+  is in the middle of a stream; trailing bytes behind every header) -/
+
+section ReaderExamples
+set_option maxRecDepth 8000
+
+/-- Ethernet II header + 2 payload bytes -/
+def exEth2 : Bytes := [1, 2, 3, 4, 5, 6, 7, 8, 9, 10, 11, 12, 0x08, 0x00, 0xaa, 0xbb]
+example : Eth2.fromSlice exEth2 =
+    .ok ({ dst := [1, 2, 3, 4, 5, 6], src := [7, 8, 9, 10, 11, 12], et := 0x0800 }, [0xaa, 0xbb]) := rfl
+example : Reads.eth2.run (readerAt [0xff] exEth2) = (readerAdv [0xff] exEth2 14, .ok (exEth2.take 14)) := rfl
+example : ∃ e, Eth2.fromSlice (exEth2.take 13) = .error e := ⟨_, rfl⟩
+
+/-- VLAN header + 1 byte -/
+def exVlan : Bytes := [0xe1, 0x23, 0x08, 0x00, 9]
+example : Vlan.fromSlice exVlan = .ok ({ pcp := 7, dei := false, vid := 0x123, et := 0x0800 }, [9]) := rfl
+example : (Reads.vlan.run (readerAt [0xff] exVlan)).2 = .ok [0xe1, 0x23, 0x08, 0x00] := rfl
+
+/-- Linux SLL header (Ethernet hardware id, IPv4 protocol) + 1 byte; a header with packet type 8 -/
+def exSll : Bytes := [0, 0, 0, 1, 0, 6, 1, 2, 3, 4, 5, 6, 0, 0, 0x08, 0x00, 7]
+def exSllBad : Bytes := [0, 8, 0, 1, 0, 6, 1, 2, 3, 4, 5, 6, 0, 0, 0x08, 0x00, 7]
+example : ∃ h, Sll.fromSlice exSll = .ok (h, [7]) := ⟨_, rfl⟩
+example : (Reads.sll.run (readerAt [0xff] exSll)).2 = .ok (exSll.take 16) := rfl
+example : Sll.fromSlice exSllBad = .error (.content "UnsupportedPacketTypeField(packet_type=8)") := by rfl
+example : (Reads.sll.run (readerAt [0xff] exSllBad)).2 =
+    .error (.other "err(content(UnsupportedPacketTypeField(packet_type=8)))") := by rfl
+example : ∃ le, Sll.fromSlice (exSll.take 15) = .error (.len le) := ⟨_, rfl⟩
+
+/-- MACsec SecTag with SCI, unmodified payload (16 bytes) + 1 byte; version bit set; short length 1 -/
+def exMacsec : Bytes := [0x20, 0, 0, 0, 0, 1, 1, 2, 3, 4, 5, 6, 7, 8, 0x08, 0x00, 9]
+example : ∃ h, Macsec.fromSlice exMacsec = .ok (h, [9]) := ⟨_, rfl⟩
+example : (Reads.macsec.run (readerAt [0xff] exMacsec)).2 = .ok (exMacsec.take 16) := rfl
+example : Macsec.fromSlice [0x80, 0, 0, 0, 0, 0] = .error (.content "UnexpectedVersion") := rfl
+example : Macsec.fromSlice [0x00, 1, 0, 0, 0, 0] = .error (.content "InvalidUnmodifiedShortLen") := rfl
+example : ∃ le, Macsec.fromSlice (exMacsec.take 15) = .error (.len le) := ⟨_, rfl⟩
+
+/-- ARP request (Ethernet / IPv4, 28 bytes) + 2 bytes -/
+def exArp : Bytes := arpFrame.drop 14 ++ [0xde, 0xad]
+example : ∃ h, Arp.fromSlice exArp = .ok (h, [0xde, 0xad]) := ⟨_, rfl⟩
+example : (Reads.arp.run (readerAt [0xff] exArp)).2 = .ok (exArp.take 28) := rfl
+example : ∃ le, Arp.fromSlice (exArp.take 27) = .error (.len le) := ⟨_, rfl⟩
+
+/-- IPv4 header with IHL 6 (24 bytes) + 1 byte; version 5; IHL 4; one byte with version 6 -/
+def exIpv4 : Bytes := [0x46, 0, 0, 40, 0, 1, 0x40, 0, 64, 17, 0, 0, 10, 0, 0, 1, 10, 0, 0, 2, 1, 1, 1, 0, 0x77]
+example : ∃ h, Ipv4Header.fromSlice exIpv4 = .ok (h, [0x77]) := ⟨_, rfl⟩
+example : (Reads.ipv4.run (readerAt [0xff] exIpv4)).2 = .ok (exIpv4.take 24) := rfl
+example : Ipv4Header.fromSlice (0x55 :: List.replicate 19 0) = .error (.unexpectedVersion 5) := rfl
+example : Ipv4Header.fromSlice (0x44 :: List.replicate 19 0) = .error (.headerLengthSmallerThanHeader 4) := rfl
+example : Ipv4Header.fromSlice (exIpv4.take 23) = .error (.len (sliceLenErr 24 23 .ipv4Header)) := rfl
+example : ∃ le, Ipv4Header.fromSlice [0x65] = .error (.len le) := ⟨_, rfl⟩
+example : (Reads.ipv4.run (readerAt [0xff] [0x65])).2 = .error (.other "err(version(6))") := by rfl
+
+/-- IPv6 header + 1 byte -/
+def exIpv6 : Bytes := [0x60, 0, 0, 0, 0, 8, 17, 64] ++ List.replicate 16 1 ++ List.replicate 16 2 ++ [0x77]
+example : ∃ h, Ipv6Header.fromSlice exIpv6 = .ok (h, [0x77]) := ⟨_, rfl⟩
+example : (Reads.ipv6.run (readerAt [0xff] exIpv6)).2 = .ok (exIpv6.take 40) := rfl
+example : Ipv6Header.fromSlice (0x45 :: exIpv6.drop 1) = .error (.unexpectedVersion 4) := rfl
+example : ∃ le, Ipv6Header.fromSlice (exIpv6.take 39) = .error (.len le) := ⟨_, rfl⟩
+
+/-- IPv6 raw extension header with `hdr ext len` 1 (16 bytes) + 1 byte -/
+def exRawExt : Bytes := [17, 1] ++ List.replicate 14 3 ++ [0x77]
+example : ∃ h, Ipv6RawExtHeader.fromSlice exRawExt = .ok (h, [0x77]) := ⟨_, rfl⟩
+example : (Reads.rawext.run (readerAt [0xff] exRawExt)).2 = .ok (exRawExt.take 16) := rfl
+example : ∃ le, Ipv6RawExtHeader.fromSlice (exRawExt.take 15) = .error (.len le) := ⟨_, rfl⟩
+
+/-- IPv6 fragment header + 1 byte -/
+def exFrag : Bytes := [17, 0, 0x00, 0x09, 0, 0, 0, 5, 0x77]
+example : ∃ h, Ipv6FragmentHeader.fromSlice exFrag = .ok (h, [0x77]) := ⟨_, rfl⟩
+example : (Reads.ipv6frag.run (readerAt [0xff] exFrag)).2 = .ok (exFrag.take 8) := rfl
+
+/-- IP authentication header with 4 ICV bytes (16 bytes) + 1 byte; payload length 0 -/
+def exAuth : Bytes := [6, 2, 0, 0, 0, 0, 0, 1, 0, 0, 0, 2, 9, 8, 7, 6, 0x77]
+example : ∃ h, IpAuthHeader.fromSlice exAuth = .ok (h, [0x77]) := ⟨_, rfl⟩
+example : (Reads.auth.run (readerAt [0xff] exAuth)).2 = .ok (exAuth.take 16) := rfl
+example : IpAuthHeader.fromSlice (6 :: 0 :: exAuth.drop 2) = .error .zeroPayloadLen := rfl
+example : ∃ le, IpAuthHeader.fromSlice (exAuth.take 15) = .error (.len le) := ⟨_, rfl⟩
+
+/-- UDP header + 1 byte -/
+def exUdp : Bytes := [0, 53, 0x10, 0, 0, 9, 0xab, 0xcd, 0x77]
+example : Udp.fromSlice exUdp = .ok ({ sp := 53, dp := 4096, len := 9, ck := 0xabcd }, [0x77]) := rfl
+example : (Reads.udp.run (readerAt [0xff] exUdp)).2 = .ok (exUdp.take 8) := rfl
+
+/-- TCP header with data offset 6 (24 bytes) + 1 byte; data offset 4 -/
+def exTcp : Bytes := [0, 80, 0x10, 0, 0, 0, 0, 1, 0, 0, 0, 2, 0x60, 0x12, 0x20, 0, 0, 0, 0, 0, 2, 4, 5, 0xb4, 0x77]
+example : ∃ h, Tcp.fromSlice exTcp = .ok (h, [0x77]) := ⟨_, rfl⟩
+example : (Reads.tcp.run (readerAt [0xff] exTcp)).2 = .ok (exTcp.take 24) := rfl
+example : Tcp.fromSlice (exTcp.set 12 0x40) = .error (.content "DataOffsetTooSmall(data_offset=4)") := by rfl
+example : ∃ le, Tcp.fromSlice (exTcp.take 23) = .error (.len le) := ⟨_, rfl⟩
+
+/-- ICMPv4 echo request + 2 bytes; a timestamp message (20 bytes); the same followed by one more byte
+    (the exception of `icmpv4_slice_of_read`) -/
+def exIcmp4 : Bytes := [8, 0, 0x12, 0x34, 0, 1, 0, 2, 0x61, 0x62]
+def exIcmp4Ts : Bytes := [13, 0, 0, 0, 0, 1, 0, 2, 0, 0, 0, 3, 0, 0, 0, 4, 0, 0, 0, 5]
+example : Icmp4.fromSlice exIcmp4 = .ok ({ ty := .echoRequest 1 2, ck := 0x1234 }, [0x61, 0x62]) := rfl
+example : (Reads.icmpv4.run (readerAt [0xff] exIcmp4)).2 = .ok (exIcmp4.take 8) := rfl
+example : Icmp4.fromSlice exIcmp4Ts = .ok ({ ty := .tsRequest 1 2 3 4 5, ck := 0 }, []) := rfl
+example : (Reads.icmpv4.run (readerAt [0xff] (exIcmp4Ts ++ [0x77]))).2 = .ok exIcmp4Ts := rfl
+example : Icmp4.fromSlice (exIcmp4Ts ++ [0x77]) = .error (lenErrSlice 20 21 "Icmpv4Timestamp") := rfl
+
+/-- ICMPv6 echo request + 1 byte -/
+def exIcmp6 : Bytes := [128, 0, 0x12, 0x34, 0, 1, 0, 2, 0x77]
+example : Icmp6.fromSlice exIcmp6 = .ok ({ ty := .echoRequest 1 2, ck := 0x1234 }, [0x77]) := rfl
+example : (Reads.icmpv6.run (readerAt [0xff] exIcmp6)).2 = .ok (exIcmp6.take 8) := rfl
+
+/-- Ipv4Extensions: protocol 51 announces the authentication header; protocol 17 does not -/
+example : ∃ e, Ipv4Extensions.fromSlice 51 exAuth = .ok (e, 6, [0x77]) := ⟨_, rfl⟩
+example : ((Reads.ipv4exts 51).run (readerAt [0xff] exAuth)).2 = .ok (some (exAuth.take 16), 6) := rfl
+example : Ipv4Extensions.fromSlice 17 exAuth = .ok ({ auth := none }, 17, exAuth) := rfl
+example : ((Reads.ipv4exts 17).run (readerAt [0xff] exAuth)).2 = .ok (none, 17) := rfl
+
+end ReaderExamples
+
+/-! #### IpHeaders (`IpHeaders::read` / `IpHeaders::from_slice`): IP header + extension headers through a
+  `LimitedReader` bounded by total_len / payload_length.
+  Slice side: `Dec.ipHeadersFromSlice` on the memory of `b` (struct mode, windows of `b`; `dec.*` correspondence
+  of C03/C06).  Reader side: `ipHeadersRead` (Model/Io.lean, `io.read.ipheaders` correspondence of C16).
+  EXCEPTIONS, explicit as the hypothesis `HoldsAnnounced b` (both need the end of the slice, which a reader
+  does not have): (a) `from_slice` rejects a slice shorter than total_len / 40 + payload_length, the reader reads
+  on; (b) `from_slice` takes an IPv6 payload_length of 0 as "to the end of the slice", the reader as a limit of
+  0 bytes.  Examples of both below.  Under the hypothesis:
+    * success ⟺ success, same header bytes, same extension headers in the same slots (`IpViewMatch`), same
+      next ip number, and the reader has consumed exactly up to the start of the payload (`r.pl.w.o`);
+    * errors (`IpErrAgrees`): same content error with the same offending value; a header cut by the END OF
+      THE SLICE is the reader's end of data (or, on fewer than 20 bytes, the bad IHL the reader has already
+      seen in the first byte); a header cut by the LENGTH FIELD is a `LenError` of the `LimitedReader` with
+      the same `len`, `len_source`, `layer` and `layer_start_offset` - and the same `required_len`, except on
+      an IPv6 raw extension header with fewer than 8 bytes left, where the reader asks for 2 bytes first and
+      then for the whole header, the slice decoder for 8 (`LenErrAgrees`; checked on the crate: payload_length
+      1 behind next_header 60 gives required_len 8 from `from_slice`, 2 from `read`). -/
+
+/-- the complete comparison -/
+theorem ip_headers_read_vs_from_slice (pre b : Bytes) (hH : HoldsAnnounced b) :
+    match Dec.ipHeadersFromSlice (Dec.memOf b) 0 b.length with
+    | .ok r => ∃ v, ipHeadersRead (readerAt pre b) = (readerAdv pre b r.pl.w.o, .ok v) ∧ IpViewMatch b r v
+    | .error e => ∃ n le, ipHeadersRead (readerAt pre b) = (readerAdv pre b n, .error le) ∧ IpErrAgrees b e le :=
+  ipheaders_table pre b hH
+
+/-- (1) `from_slice` succeeds ⟹ `read` succeeds with the matching value and has consumed exactly the
+    headers; the only hypothesis left is exception (b) (a successful `from_slice` implies the rest) -/
+theorem ip_headers_read_of_slice (pre b : Bytes) (r : Dec.IpR)
+    (hd : Dec.ipHeadersFromSlice (Dec.memOf b) 0 b.length = .ok r)
+    (hz : bAt b 0 / 16 = 6 → ¬ (be16 b 4 = 0 ∧ 40 < b.length)) :
+    ∃ v, ipHeadersRead (readerAt pre b) = (readerAdv pre b r.pl.w.o, .ok v) ∧ IpViewMatch b r v := by
+  have t := ipheaders_table pre b (holdsAnnounced_of_ok b r hd hz)
+  rw [hd] at t; exact t
+
+/-- (2) `read` succeeds ⟹ `from_slice` succeeds with the matching value -/
+theorem ip_headers_slice_of_read (pre b : Bytes) (hH : HoldsAnnounced b) (v : IpRead)
+    (hr : (ipHeadersRead (readerAt pre b)).2 = .ok v) :
+    ∃ r, Dec.ipHeadersFromSlice (Dec.memOf b) 0 b.length = .ok r ∧
+      (ipHeadersRead (readerAt pre b)).1 = readerAdv pre b r.pl.w.o ∧ IpViewMatch b r v := by
+  have t := ipheaders_table pre b hH
+  cases hd : Dec.ipHeadersFromSlice (Dec.memOf b) 0 b.length with
+  | ok r =>
+    rw [hd] at t
+    obtain ⟨v', t1, t2⟩ := t
+    rw [t1] at hr ⊢
+    cases hr
+    exact ⟨r, rfl, rfl, t2⟩
+  | error e =>
+    rw [hd] at t
+    obtain ⟨n, le, t1, _⟩ := t
+    rw [t1] at hr; cases hr
+
+/-- (3)+(4) one rejects iff the other does, with agreeing errors -/
+theorem ip_headers_rejections_coincide (pre b : Bytes) (hH : HoldsAnnounced b) :
+    (∀ e, Dec.ipHeadersFromSlice (Dec.memOf b) 0 b.length = .error e →
+      ∃ le, (ipHeadersRead (readerAt pre b)).2 = .error le ∧ IpErrAgrees b e le) ∧
+    (∀ le, (ipHeadersRead (readerAt pre b)).2 = .error le →
+      ∃ e, Dec.ipHeadersFromSlice (Dec.memOf b) 0 b.length = .error e ∧ IpErrAgrees b e le) := by
+  have t := ipheaders_table pre b hH
+  cases hd : Dec.ipHeadersFromSlice (Dec.memOf b) 0 b.length with
+  | ok r =>
+    rw [hd] at t
+    obtain ⟨v', t1, _⟩ := t
+    exact ⟨fun e he => (by cases he), fun le hr => (by rw [t1] at hr; cases hr)⟩
+  | error e =>
+    rw [hd] at t
+    obtain ⟨n, le, t1, t2⟩ := t
+    exact ⟨fun e' he => (by cases he; exact ⟨le, by rw [t1], t2⟩),
+      fun le' hr => (by rw [t1] at hr; cases hr; exact ⟨e, rfl, t2⟩)⟩
+
+section IpHeadersExamples
+set_option maxRecDepth 8000
+
+/-- IPv4 header (total_len 36, protocol 51) + authentication header (16 bytes) + 1 byte: the hypotheses
+    hold, both doors succeed, 36 bytes consumed -/
+def exIph4 : Bytes := [0x45, 0, 0, 36, 0, 1, 0x40, 0, 64, 51, 0, 0, 10, 0, 0, 1, 10, 0, 0, 2] ++ exAuth
+example : HoldsAnnounced exIph4 := by decide
+example : Dec.ipHeadersFromSlice (Dec.memOf exIph4) 0 exIph4.length =
+    .ok (Dec.mkV4 0 20 (some ⟨20, 16⟩)
+      { num := 6, frag := false, src := .ipv4HeaderTotalLen, w := ⟨36, 0⟩, inc := false }) := by rfl
+example : ipHeadersRead (readerAt [0xff] exIph4) =
+    (readerAdv [0xff] exIph4 36, .ok (.v4 (exIph4.take 20) (some (exAuth.take 16)) 6)) := by rfl
+/-- total_len 24 cuts the authentication header: the same `LenError` through both doors -/
+example : HoldsAnnounced (exIph4.set 3 24) := by decide
+example : Dec.ipHeadersFromSlice (Dec.memOf (exIph4.set 3 24)) 0 (exIph4.set 3 24).length =
+    .error (.len { req := 12, len := 4, src := .ipv4HeaderTotalLen, layer := .ipAuthHeader, off := 20 }) := by rfl
+example : (ipHeadersRead (readerAt [0xff] (exIph4.set 3 24))).2 =
+    .error (.len { required := 12, len := 4, src := "Ipv4HeaderTotalLen", layer := "IpAuthHeader", off := 20 }) := by
+  rfl
+
+/-- exception (a): the same packet with total_len 100 in a 37 byte slice: `from_slice` rejects, `read`
+    succeeds -/
+def exIph4Long : Bytes := exIph4.set 3 100
+example : ¬ HoldsAnnounced exIph4Long := by decide
+example : Dec.ipHeadersFromSlice (Dec.memOf exIph4Long) 0 exIph4Long.length =
+    .error (.len { req := 100, len := 37, src := .slice, layer := .ipv4Packet, off := 0 }) := by rfl
+example : (ipHeadersRead (readerAt [0xff] exIph4Long)).2 =
+    .ok (.v4 (exIph4Long.take 20) (some (exAuth.take 16)) 6) := by rfl
+
+/-- exception (b): IPv6 header with payload_length 0 and next header 60, a destination options header
+    in the slice: `from_slice` succeeds (payload = rest of the slice), `read` hits its limit of 0 bytes -/
+def exIph6Zero : Bytes :=
+  [0x60, 0, 0, 0, 0, 0, 60, 64] ++ List.replicate 16 1 ++ List.replicate 16 2 ++ [17, 0, 0, 0, 0, 0, 0, 0]
+example : ¬ HoldsAnnounced exIph6Zero := by decide
+example : ∃ r, Dec.ipHeadersFromSlice (Dec.memOf exIph6Zero) 0 exIph6Zero.length = .ok r := by
+  simp [Dec.ipHeadersFromSlice, Dec.ipDispatchHeader, exIph6Zero, Dec.memOf, bAt, Dec.ipv6AfterHeaderStrict,
+    Dec.ipv6BoundStrict, Dec.g16, Dec.ipv6ChainStrict, Dec.extsWalkStrict, Dec.extsWalk, Dec.extsLoop,
+    Dec.rawFits, Dec.ExtSlots.none, Dec.extsDone, Dec.rawStore]
+example : (ipHeadersRead (readerAt [0xff] exIph6Zero)).2 =
+    .error (.len { required := 2, len := 0, src := "Ipv6HeaderPayloadLen", layer := "Ipv6ExtHeader", off := 40 }) := by
+  have h := ipHeadersRead_v6_exts [0xff] exIph6Zero (by decide) (by rfl) (by decide)
+  rw [h]
+  have hnh : bAt exIph6Zero 6 = 60 := by rfl
+  have hpl : be16 exIph6Zero 4 = 0 := by rfl
+  rw [hnh, hpl]
+  have hs : LReads.slot 60 [.dst, .rt, .frag, .auth, .fdst] = some (⟨.dst, by decide⟩, LReads.rawext) := by
+    simp [LReads.slot]
+  simp only [LReads.ipv6exts, show ¬ ((60 : Nat) = 0) by decide, if_false]
+  rw [lextsLoop_some 60 _ [] (by decide) .dst (by decide) LReads.rawext hs, evalOnL_bind]
+  simp [LReads.rawext, evalOnL, st6, LSt.started, LSt.lenErr]
+
+end IpHeadersExamples
+
+end ReadersVsSlices
 
 end EpModel.Props.C06
